@@ -1460,6 +1460,246 @@ fn gen_scenario2(rng: &mut Rng, id: String, max_steps: usize) -> History {
 }
 
 
+// Scenarios for ONE design unit that looks up SEVERAL distinct, currently missing units whose names share
+// the library and / or the primary name (the keys of DesignRoot::missing_unit that differ in one component
+// only): several architectures of one entity (one of them named like the entity, as a package body is),
+// the entity itself together with its architectures, the same architecture name for two entities, the
+// same entity name in two libraries with different architectures, several packages of one library with
+// an entity of that name in another library, a package and its body.  The references appear in a random
+// order (sometimes one of them twice); every missing unit has a file of its own, and the history fills,
+// empties, replaces and restores these files in random order, so that each of the missing units is at
+// some point the one that arrives while the others are still missing.
+#[derive(Clone)]
+enum Ref4 {
+    Inst(String, String, Option<String>),
+    Pkg(String, String),
+}
+
+struct Tgt4 {
+    file: String,
+    text: String,
+    alt: Option<String>,
+}
+
+fn gen_scenario4(rng: &mut Rng, id: String, max_steps: usize) -> History {
+    let mut libraries: BTreeMap<String, Vec<String>> = BTreeMap::new();
+    let mut initial: BTreeMap<String, String> = BTreeMap::new();
+    for l in ["lib_a", "lib_b", "lib_c"] {
+        libraries.insert(l.into(), Vec::new());
+    }
+    let mut refs: Vec<Ref4> = Vec::new();
+    let mut tgts: Vec<Tgt4> = Vec::new();
+    let mut nfile = 0usize;
+    let arch = |e: &str, a: &str| format!("architecture {a} of {e} is\nbegin\n  q <= a;\nend architecture;\n");
+    let arch_alt = |e: &str, a: &str| {
+        format!("architecture {a} of {e} is\n  signal m : bit;\nbegin\n  m <= a;\n  q <= m;\nend architecture;\n")
+    };
+    let pkg = |p: &str, k: usize| format!("package {p} is\n  constant c : integer := {k};\nend package;\n");
+    // a unit that is always there / a unit that comes and goes, each in a new file of library l
+    let mut fixed = |libraries: &mut BTreeMap<String, Vec<String>>, initial: &mut BTreeMap<String, String>, l: &str, text: String| {
+        let f = format!("f{nfile}.vhd");
+        nfile += 1;
+        libraries.get_mut(l).unwrap().push(f.clone());
+        initial.insert(f, text);
+    };
+    let mut ntgt = 0usize;
+    let mut target = |libraries: &mut BTreeMap<String, Vec<String>>, tgts: &mut Vec<Tgt4>, l: &str, text: String, alt: Option<String>| {
+        let f = format!("t{ntgt}.vhd");
+        ntgt += 1;
+        libraries.get_mut(l).unwrap().push(f.clone());
+        tgts.push(Tgt4 { file: f, text, alt });
+    };
+    let l1: String = if rng.chance(1, 2) { "lib_a".into() } else { "lib_b".into() };
+    let l2: String = if l1 == "lib_a" { if rng.chance(1, 2) { "lib_b".into() } else { "lib_c".into() } } else { "lib_c".into() };
+    let inst = |l: &str, e: &str, a: &str| Ref4::Inst(l.into(), e.into(), Some(a.into()));
+    match rng.below(8) {
+        0 | 1 | 2 => {
+            // 2-4 architectures of one entity; sometimes the entity comes and goes as well
+            let names = ["a1", "a2", "a3", "ent"];
+            let k = 2 + rng.below(3);
+            let start = rng.below(4);
+            if rng.chance(1, 3) {
+                target(&mut libraries, &mut tgts, &l1, entity_text("ent"), None);
+            } else {
+                fixed(&mut libraries, &mut initial, &l1, entity_text("ent"));
+            }
+            for j in 0..k {
+                let a = names[(start + j) % 4];
+                target(&mut libraries, &mut tgts, &l1, arch("ent", a), Some(arch_alt("ent", a)));
+                refs.push(inst(&l1, "ent", a));
+            }
+            if rng.chance(1, 3) {
+                refs.push(Ref4::Inst(l1.clone(), "ent".into(), None));
+            }
+        }
+        3 => {
+            // the same architecture name for two entities of one library (+ a second architecture of one)
+            for e in ["e1", "e2"] {
+                if rng.chance(1, 4) {
+                    target(&mut libraries, &mut tgts, &l1, entity_text(e), None);
+                } else {
+                    fixed(&mut libraries, &mut initial, &l1, entity_text(e));
+                }
+                target(&mut libraries, &mut tgts, &l1, arch(e, "rtl"), Some(arch_alt(e, "rtl")));
+                refs.push(inst(&l1, e, "rtl"));
+            }
+            if rng.chance(1, 2) {
+                target(&mut libraries, &mut tgts, &l1, arch("e1", "a2"), None);
+                refs.push(inst(&l1, "e1", "a2"));
+            }
+        }
+        4 => {
+            // one entity name in two libraries, architectures a1 / a2 of either
+            fixed(&mut libraries, &mut initial, &l1, entity_text("ent"));
+            fixed(&mut libraries, &mut initial, &l2, entity_text("ent"));
+            let all = [(&l1, "a1"), (&l2, "a2"), (&l1, "a2"), (&l2, "a1")];
+            let k = 2 + rng.below(3);
+            for (l, a) in all.iter().take(k) {
+                target(&mut libraries, &mut tgts, l, arch("ent", a), Some(arch_alt("ent", a)));
+                refs.push(inst(l, "ent", a));
+            }
+        }
+        5 => {
+            // packages pk1, pk2 of one library, an entity pk1 with architecture(s) in another library
+            target(&mut libraries, &mut tgts, &l1, pkg("pk1", 1), Some(pkg("pk1", 11)));
+            target(&mut libraries, &mut tgts, &l1, pkg("pk2", 2), Some(pkg("pk2", 12)));
+            refs.push(Ref4::Pkg(l1.clone(), "pk1".into()));
+            refs.push(Ref4::Pkg(l1.clone(), "pk2".into()));
+            if rng.chance(1, 2) {
+                target(&mut libraries, &mut tgts, &l2, entity_text("pk1"), None);
+            } else {
+                fixed(&mut libraries, &mut initial, &l2, entity_text("pk1"));
+            }
+            for a in ["pk1", "pk2"] {
+                if a == "pk1" || rng.chance(1, 2) {
+                    target(&mut libraries, &mut tgts, &l2, arch("pk1", a), None);
+                    refs.push(inst(&l2, "pk1", a));
+                }
+            }
+        }
+        6 => {
+            // a package with a deferred constant and its body in two files, a second package, and an
+            // entity + architecture of the package's name in another library
+            target(&mut libraries, &mut tgts, &l1, "package pk is\n  constant c : integer;\nend package;\n".into(), Some(pkg("pk", 3)));
+            target(
+                &mut libraries,
+                &mut tgts,
+                &l1,
+                "package body pk is\n  constant c : integer := 5;\nend package body;\n".into(),
+                Some("package body pk is\n  constant c : integer := 6;\n  constant d : integer := 1;\nend package body;\n".into()),
+            );
+            refs.push(Ref4::Pkg(l1.clone(), "pk".into()));
+            if rng.chance(1, 2) {
+                target(&mut libraries, &mut tgts, &l1, pkg("pk2", 2), None);
+                refs.push(Ref4::Pkg(l1.clone(), "pk2".into()));
+            }
+            fixed(&mut libraries, &mut initial, &l2, entity_text("pk"));
+            target(&mut libraries, &mut tgts, &l2, arch("pk", "pk"), Some(arch_alt("pk", "pk")));
+            refs.push(inst(&l2, "pk", "pk"));
+            if rng.chance(1, 2) {
+                target(&mut libraries, &mut tgts, &l2, arch("pk", "a1"), None);
+                refs.push(inst(&l2, "pk", "a1"));
+            }
+        }
+        _ => {
+            // everything at once in one library: entity, two architectures, a package
+            target(&mut libraries, &mut tgts, &l1, entity_text("ent"), None);
+            target(&mut libraries, &mut tgts, &l1, arch("ent", "a1"), None);
+            target(&mut libraries, &mut tgts, &l1, arch("ent", "a2"), Some(arch_alt("ent", "a2")));
+            target(&mut libraries, &mut tgts, &l1, pkg("pk1", 1), None);
+            refs.push(inst(&l1, "ent", "a1"));
+            refs.push(inst(&l1, "ent", "a2"));
+            refs.push(Ref4::Pkg(l1.clone(), "pk1".into()));
+            refs.push(Ref4::Inst(l1.clone(), "ent".into(), None));
+        }
+    }
+    // the user: one architecture with all the references in a random order, sometimes one of them twice
+    if rng.chance(1, 4) {
+        let r = refs[rng.below(refs.len())].clone();
+        refs.push(r);
+    }
+    for i in (1..refs.len()).rev() {
+        let j = rng.below(i + 1);
+        refs.swap(i, j);
+    }
+    let user_text = |name: &str, refs: &[Ref4], work: bool| -> String {
+        let mut decls = String::new();
+        let mut stmts = String::new();
+        for (i, r) in refs.iter().enumerate() {
+            match r {
+                Ref4::Inst(l, e, a) => {
+                    let l = if work && l == "lib_a" { "work" } else { l.as_str() };
+                    let a = a.as_ref().map(|a| format!("({a})")).unwrap_or_default();
+                    decls.push_str(&format!("  signal t{i} : bit;\n"));
+                    stmts.push_str(&format!("  u{i} : entity {l}.{e}{a} port map (a => s, q => t{i});\n"));
+                }
+                Ref4::Pkg(l, p) => {
+                    let l = if work && l == "lib_a" { "work" } else { l.as_str() };
+                    decls.push_str(&format!("  signal i{i} : integer := {l}.{p}.c;\n"));
+                }
+            }
+        }
+        format!(
+            "library lib_a;\nlibrary lib_b;\nlibrary lib_c;\nentity {name} is\nend entity;\narchitecture a of {name} is\n  signal s : bit;\n{decls}begin\n{stmts}end architecture;\n"
+        )
+    };
+    let work = rng.chance(1, 2);
+    libraries.get_mut("lib_a").unwrap().push("user.vhd".into());
+    initial.insert("user.vhd".into(), user_text("user0", &refs, work));
+    // a second user in another file (the same references in reverse order) or a configuration of the
+    // first one; a unit on top of the first user; fillers so that no library is empty
+    libraries.get_mut("lib_a").unwrap().push("w.vhd".into());
+    let w = match rng.below(4) {
+        0 => {
+            let mut rr = refs.clone();
+            rr.reverse();
+            user_text("user1", &rr, !work)
+        }
+        1 => "configuration cfg0 of user0 is\n  for a\n  end for;\nend configuration;\n".to_string(),
+        2 => "entity x0 is\nend entity;\narchitecture a of x0 is\nbegin\n  u0 : entity work.user0(a);\nend architecture;\n".to_string(),
+        _ => String::new(),
+    };
+    initial.insert("w.vhd".into(), w);
+    for l in ["lib_b", "lib_c"] {
+        let f = format!("q_{l}.vhd");
+        libraries.get_mut(l).unwrap().push(f.clone());
+        initial.insert(f, format!("package q9_{l} is\n  constant c9 : integer := 9;\nend package;\n"));
+    }
+    // the missing units: mostly all missing at the start; then a random walk of fill / empty / replace
+    let p0 = rng.below(3); // 0: all missing, 1: a quarter present, 2: half
+    let mut present: Vec<bool> = tgts.iter().map(|_| p0 > 0 && rng.chance(p0, 4)).collect();
+    let mut seen = present.clone();
+    let mut is_alt: Vec<bool> = tgts.iter().map(|_| false).collect();
+    for (i, t) in tgts.iter().enumerate() {
+        initial.insert(t.file.clone(), if present[i] { t.text.clone() } else { String::new() });
+    }
+    let mut steps: Vec<Step> = Vec::new();
+    let n = std::cmp::max(1, std::cmp::min(max_steps, 3 + rng.below(6)));
+    while steps.len() < n {
+        let missing: Vec<usize> = (0..tgts.len()).filter(|i| !present[*i]).collect();
+        // prefer filling while something is missing, so that every arrival order is reached
+        let i = if !missing.is_empty() && rng.chance(3, 5) { *rng.pick(&missing) } else { rng.below(tgts.len()) };
+        let t = &tgts[i];
+        if present[i] {
+            if t.alt.is_some() && rng.chance(1, 4) {
+                is_alt[i] = !is_alt[i];
+                let text = if is_alt[i] { t.alt.clone().unwrap() } else { t.text.clone() };
+                steps.push(Step { file: t.file.clone(), text, kind: "replace".into(), via: String::new() });
+            } else {
+                steps.push(Step { file: t.file.clone(), text: String::new(), kind: "empty".into(), via: String::new() });
+                present[i] = false;
+            }
+        } else {
+            let text = if is_alt[i] { t.alt.clone().unwrap() } else { t.text.clone() };
+            steps.push(Step { file: t.file.clone(), text, kind: if seen[i] { "restore".into() } else { "replace".into() }, via: String::new() });
+            present[i] = true;
+            seen[i] = true;
+        }
+    }
+    History { id, libraries, initial, lints: rng.chance(9, 10), numeric: false, steps }
+}
+
+
 // Worlds whose standard-library files are edited (comment appended / original restored) while user
 // units depend on the entities the analyser special-cases: matching operators on arrays of
 // std_ulogic, BOOLEAN / BIT / TIME / STRING, 'image, to_string, textio, env, numeric_std.
@@ -1925,6 +2165,16 @@ fn main() {
             for i in 0..count {
                 let mut r = master.fork();
                 hs.push(gen_history(&mut r, format!("s{seed}-{i}"), max_steps));
+            }
+            // a fixed share of the stream: one unit that is missing several units with overlapping names
+            // (appended, with a generator of its own, so that the histories above stay what they were)
+            let mut master4 = Rng::new(seed ^ 0x4d15_5eed_0000_0004).fork();
+            for i in 0..std::cmp::max(4, count / 8) {
+                let mut r = master4.fork();
+                let h = gen_scenario4(&mut r, format!("s{seed}-m{i}"), max_steps);
+                let mut h = decorate(&mut r, h);
+                h.steps.truncate(std::cmp::max(1, max_steps));
+                hs.push(h);
             }
             run_all(hs, &outdir, threads, libs);
         }
